@@ -212,9 +212,10 @@ def rule_a8_pairing(ctx):
         prim = known_at(ecfg, n, 'isConstructed', False, erd)
         in_loop = any(isinstance(a, (ast.For, ast.While)) for a in ancestors(n.ast, enc.node))
         base_only = (not in_loop) or known_at(ecfg, n, 'idx', False, erd)
+        def conj(t_):
+            return [c_ for v_ in t_.values for c_ in conj(v_)] if isinstance(t_, ast.BoolOp) and isinstance(t_.op, ast.And) else [t_]
         others = [norm(a.test) for a in ancestors(n.ast, enc.node) if isinstance(a, ast.If) and
-                  norm(a.test) not in ('isConstructed', 'not isConstructed', 'not idx', 'idx', 'not idx and not isConstructed',
-                                       'not isConstructed and not idx')]
+                  any(norm(c_) not in ('isConstructed', 'not isConstructed', 'not idx', 'idx') for c_ in conj(a.test))]
         if prim and base_only and not others:
             ok = True
         elif prim and others:
